@@ -328,6 +328,21 @@ pub fn axis<T: Flt>(src: &mut Src, n: usize, class: AxisClass, max_ratio_log2: O
                 x.push(x0 + (i as f64 + eps) * h);
             }
         }
+        AxisClass::Anchored if n >= 4 && src.bool() => {
+            // the index axis 0, 1, .., n-1 with one or two interior samples displaced (first step, last step and
+            // most knots stay exactly on the index)
+            for i in 0..n {
+                x.push(i as f64);
+            }
+            for _ in 0..src.usize_in(1, 2) {
+                let j = src.usize_in(1, n - 2);
+                let d = src.pick(&[0.5, -0.5, 0.25, -0.25, 0.75, -0.75]);
+                let v = j as f64 + d;
+                if v > x[j - 1] && v < x[j + 1] {
+                    x[j] = v;
+                }
+            }
+        }
         AxisClass::Anchored => {
             // interior knots at random positions, then mapped affinely onto [0, n-1]
             let spread = match max_ratio_log2 {
